@@ -11,6 +11,7 @@ import (
 	"sort"
 	"strings"
 	"sync"
+	"sync/atomic"
 	"testing"
 
 	"github.com/nspcc-dev/neo-go/pkg/config"
@@ -348,6 +349,83 @@ func persistRun(t *testing.T, run *ev.Run, idx, nblocks int, gc bool) {
 	}
 	runJobs(run, jobs, func(j job) any {
 		return map[string]any{"run": idx, "kind": kind, "protocol": h.PName, "prefix_batches": j.id, "schedule": rr.sched, "db_keys": len(j.content)}
+	})
+}
+
+// concurrentRun: the persist loop runs in its own goroutine while blocks are
+// added (as on a real node), so a batch can be cut at any point of block
+// processing; every prefix must still be a consistent, resumable state.
+func concurrentRun(t *testing.T, run *ev.Run, idx, nblocks int) {
+	h := vchain.BuildHistory(t, vchain.HistoryCfg{Idx: idx, Blocks: nblocks})
+	defer h.P.Close()
+	if h.P.Rejected != nil {
+		run.Violation("producer-rejected-own-block", fmt.Sprint("run", idx), h.P.Rejected.Error(), nil)
+		return
+	}
+	cfg := h.Proto
+	kind := "concurrent-persist"
+	rep, err := vchain.OpenReplica(t, vchain.ReplicaCfg{Name: "rec", Cfg: cfg, Backend: "mem", Record: true})
+	if err != nil {
+		t.Fatal(err)
+	}
+	var offered atomic.Int64
+	var mu sync.Mutex
+	var accepted []int
+	rep.Store.OnBatch = func(i int) {
+		mu.Lock()
+		for len(accepted) <= i {
+			accepted = append(accepted, int(offered.Load()))
+		}
+		mu.Unlock()
+	}
+	stop := make(chan struct{})
+	var wg sync.WaitGroup
+	wg.Add(1)
+	go func() {
+		defer wg.Done()
+		for {
+			select {
+			case <-stop:
+				return
+			default:
+				_ = rep.BC.VerifPersist()
+				run.Obs("concurrent_flushes", 1)
+			}
+		}
+	}()
+	for i := range h.P.Raw {
+		offered.Store(int64(i + 1))
+		if err := rep.AddRaw(h.P.Raw[i]); err != nil {
+			close(stop)
+			wg.Wait()
+			rep.Close()
+			run.Violation(kind+":recording-node-failed", fmt.Sprint("run", idx), err.Error(), nil)
+			return
+		}
+	}
+	close(stop)
+	wg.Wait()
+	_ = rep.Flush()
+	log := rep.Store.Log()
+	rep.Close()
+	run.Obs("batches_recorded", int64(len(log)))
+	run.Sample(map[string]any{"run": idx, "kind": kind, "blocks": len(h.P.Raw), "atomic_batches": len(log)})
+	ps := prefixes(log, 0)
+	r := rng.New(uint64(idx)*13 + 12)
+	var jobs []job
+	for k, content := range ps {
+		_ = r
+		acc := len(h.P.Raw)
+		if k < len(accepted) {
+			acc = accepted[k]
+		}
+		id := fmt.Sprintf("%s%d/prefix%d", kind, idx, k+1)
+		jobs = append(jobs, job{id: id, content: content, backend: "mem", acc: acc, kind: kind, f: func() *outcome {
+			return checkPrefix(t, run, h, cfg, content, "mem", acc, kind, 3)
+		}})
+	}
+	runJobs(run, jobs, func(j job) any {
+		return map[string]any{"run": idx, "kind": kind, "prefix_batches": j.id, "db_keys": len(j.content)}
 	})
 }
 
@@ -691,6 +769,11 @@ func TestCheck(t *testing.T) {
 	if do("gc") {
 		for i := 0; i < ev.Pick(2, 5); i++ {
 			persistRun(t, run, 300+i, nb, true)
+		}
+	}
+	if do("concurrent") {
+		for i := 0; i < ev.Pick(1, 3); i++ {
+			concurrentRun(t, run, 700+i, ev.Pick(600, 2500))
 		}
 	}
 	if do("reset") {
